@@ -23,9 +23,12 @@ var c45Keys = []string{"k1", "k2", "k3"}
 type c45Cfg struct {
 	Replicas, Probes int
 	Hash             string
+	Nodes            int // members n1..nNodes
 }
 
-func (g c45Cfg) String() string { return fmt.Sprintf("r%d-p%d-%s", g.Replicas, g.Probes, g.Hash) }
+func (g c45Cfg) String() string {
+	return fmt.Sprintf("r%d-p%d-%s-%dn", g.Replicas, g.Probes, g.Hash, g.Nodes)
+}
 
 func c45Hash(name string) hashring.Hash {
 	switch name {
@@ -73,9 +76,9 @@ type c45State struct {
 	hasLast bool
 }
 
-func c45Events() []c45Ev {
+func c45Events(nodes int) []c45Ev {
 	var evs []c45Ev
-	for _, n := range c45Nodes {
+	for _, n := range c45Nodes[:nodes] {
 		evs = append(evs, c45Ev{Op: "ins", K: n, V: 1}, c45Ev{Op: "ins", K: n, V: 2}, c45Ev{Op: "rem", K: n})
 	}
 	evs = append(evs, c45Ev{Op: "rem", K: "n9"}) // never inserted
@@ -213,7 +216,7 @@ func c45Check(s *c45State, hist []c45Ev) []hbfs.Fail {
 }
 
 func c45Spec(g c45Cfg, depth int, tree bool) *hbfs.Spec[*c45State, c45Ev] {
-	evs := c45Events()
+	evs := c45Events(g.Nodes)
 	mode := "graph"
 	if tree {
 		mode = "tree"
@@ -248,12 +251,12 @@ func c45Spec(g c45Cfg, depth int, tree bool) *hbfs.Spec[*c45State, c45Ev] {
 	return sp
 }
 
-func c45Configs() []c45Cfg {
+func c45Configs(nodes int) []c45Cfg {
 	var out []c45Cfg
 	for _, h := range []string{"xxh3", "fold4", "const", "wrap"} {
 		for r := 1; r <= 3; r++ {
 			for p := 1; p <= 3; p++ {
-				out = append(out, c45Cfg{Replicas: r, Probes: p, Hash: h})
+				out = append(out, c45Cfg{Replicas: r, Probes: p, Hash: h, Nodes: nodes})
 			}
 		}
 	}
@@ -275,7 +278,7 @@ func TestVerif_C45(t *testing.T) {
 				c.ToolError(err.Error())
 				return
 			}
-			for _, g := range c45Configs() {
+			for _, g := range append(c45Configs(3), c45Configs(4)...) {
 				sp := c45Spec(g, 99, false)
 				if !strings.HasPrefix(d.Spec, "ring-"+g.String()+"-") {
 					continue
@@ -294,21 +297,31 @@ func TestVerif_C45(t *testing.T) {
 			c.ToolError("replay: unknown spec " + d.Spec)
 			return
 		}
-		c.Sample(map[string]any{"config": "r2-p2-fold4", "history": []string{"ins:n1:1", "ins:n2:1", "look:k1:0", "rem:n1:0", "ins:n3:2", "ins:n1:2", "look:k2:0"},
+		c.Sample(map[string]any{"config": "r2-p2-fold4-4n", "history": []string{"ins:n1:1", "ins:n2:1", "look:k1:0", "rem:n1:0", "ins:n3:2", "ins:n1:2", "look:k2:0"},
 			"oracle": "Lookup(k2) must equal Lookup(k2) on fresh rings built from {n1#2,n2#1,n3#2} in sorted and reversed order"})
 		var gs, gt int64
 		fix := true
-		for _, g := range c45Configs() {
+		// quick: 3 members for all 36 configurations + 4 members for replicas=probes=2; thorough: 4 members everywhere
+		cfgs := c45Configs(4)
+		if c.Quick() {
+			cfgs = c45Configs(3)
+			for _, g := range c45Configs(4) {
+				if g.Replicas == 2 && g.Probes == 2 {
+					cfgs = append(cfgs, g)
+				}
+			}
+		}
+		for _, g := range cfgs {
 			st := hbfs.Explore(c, c45Spec(g, 40, false))
 			gs += st.States
 			gt += st.Transitions
 			fix = fix && st.Complete && st.Depth < 40
 		}
-		fmt.Printf("hbfs ring graph mode: 36 configs, states=%d transitions=%d all-fixpoints=%v\n", gs, gt, fix)
+		fmt.Printf("hbfs ring graph mode: %d configs, states=%d transitions=%d all-fixpoints=%v\n", len(cfgs), gs, gt, fix)
 		c.Extra("graph_fixpoint_all_configs", fix)
 		var ts, tt int64
 		td := c.Pick(4, 5)
-		for _, g := range c45Configs() {
+		for _, g := range c45Configs(4) {
 			if g.Replicas != 2 || (g.Probes != 2 && c.Quick()) {
 				continue
 			}
